@@ -5,9 +5,11 @@ mod action;
 mod api;
 mod candle;
 mod convert;
+mod laws;
 mod methods;
 mod num;
 mod params;
+mod prefix;
 mod tok;
 mod util;
 mod window;
@@ -36,6 +38,9 @@ fn dispatch(cmd: &str, rest: &[String]) {
 		"candle-record" => candle::record(rest),
 		"convert-replay" => convert::replay(rest),
 		"convert-record" => convert::record(rest),
+		"laws-record" => laws::record(rest),
+		"laws-impulse" => laws::impulse(rest),
+		"prefix-record" => prefix::record(rest),
 		"num-record" => num::record(rest),
 		"tok-replay" => tok::replay(rest),
 		"tok-record" => tok::record(rest),
